@@ -70,6 +70,10 @@ func (d *Document) GetVariableBooleanValue(name string) (value, valid bool) {
 		return val, true
 	}
 	for i := range d.VariableDefinitions {
+		if !d.variableDefinitionBelongsToRootOperation(i) {
+			// the definition of another operation of the document, which is not being normalized
+			continue
+		}
 		definitionName := d.VariableDefinitionNameString(i)
 		if definitionName == name {
 			if d.VariableDefinitions[i].DefaultValue.IsDefined {
@@ -82,4 +86,28 @@ func (d *Document) GetVariableBooleanValue(name string) (value, valid bool) {
 		}
 	}
 	return false, false
+}
+
+// variableDefinitionBelongsToRootOperation reports whether the variable definition is declared by an
+// operation that is (still) a root node of the document. Normalizing for one operation name takes the
+// other operations out of the root nodes, but their variable definitions stay in the document and may
+// declare the same name with another default value. A document without any operation root node is
+// not restricted.
+func (d *Document) variableDefinitionBelongsToRootOperation(ref int) bool {
+	hasRootOperation := false
+	for _, node := range d.RootNodes {
+		if node.Kind != NodeKindOperationDefinition {
+			continue
+		}
+		hasRootOperation = true
+		if !d.OperationDefinitions[node.Ref].HasVariableDefinitions {
+			continue
+		}
+		for _, i := range d.OperationDefinitions[node.Ref].VariableDefinitions.Refs {
+			if i == ref {
+				return true
+			}
+		}
+	}
+	return !hasRootOperation
 }
